@@ -195,7 +195,7 @@ CHECKS = {
    technique="TLA+ spec Sentences + TLC over all short texts; I->S trace validation of the real splitter on every enumerated case and on random texts (Trace_Sentences)",
    design="4 C16"),
  "C03": dict(
-   category="conformance_testing",
+   category="exploration",
    text="Totality.tla gives an analysis an outcome algebra {ok, toolong, err} whose admissible value is a function of the original length, the rewritten length and the presence of a fallback "
         "OOV provider (ok within 49,149 / 65,535 bytes, toolong beyond); a panic, overflow or failed debug assertion is a value no action produces. TLC enumerates, at the REAL constants, every "
         "composition of kept, shrinking (3->1 byte) and expanding (3->33 bytes, U+FDFA) characters that sits one below, on and one above either limit; each is analysed by the real tokenizer in four "
